@@ -322,13 +322,30 @@ func placementConflict(c *Case) bool {
 	return false
 }
 
+// conflictingPairingKeys: how the recorded finding shows itself (every violation key observed in conflicting-pairing
+// cases on the tree at repository commit f8bef32, thorough tier, seeds 1-3: 788 such cases). Streams that the
+// one-partner-per-key mapping cannot serve are forwarded through another handler's queue while their tick-only
+// packs go inline (packs of one stream out of read order), or are written through the handler of the wrong
+// channel (wrong output channel, positions naming the other channel). Anything else in such a case - a lost or
+// duplicated message, a wrong label, a changed payload - is NOT covered by the finding.
+var conflictingPairingKeys = map[string]bool{
+	"packs-of-one-stream-out-of-read-order":  true,
+	"delivered-on-wrong-output-channel":      true,
+	"message-position-names-other-channel":   true,
+}
+
 // pairingConflict re-keys a violation observed in a case with a conflicting channel pairing under unequal channel
 // counts (one recorded finding for that input shape; everything else keeps its own key).
 func pairingConflict(run *vf.Run, prop string, c *Case, v vio) vio {
 	if !conflictingPairing(c) {
 		return v
 	}
-	run.Count("conflicting_pairing_inner_"+strings.TrimPrefix(v.key, prop+"/"), 1)
+	inner := strings.TrimPrefix(v.key, prop+"/")
+	run.Count("conflicting_pairing_inner_"+inner, 1)
+	if !conflictingPairingKeys[inner] {
+		// not one of the ways the recorded finding shows itself: reported under its own key
+		return v
+	}
 	return vio{key: prop + "/conflicting-channel-pairing-under-unequal-channel-counts", desc: fmt.Sprintf("[%s, %d source vs %d downstream channels] %s", v.key, c.SrcChanNum, c.DstChanNum, v.desc)}
 }
 
